@@ -27,6 +27,7 @@ THEOREMS = [
     'Pyiga.Props.C02.coxS_eq_cox', 'Pyiga.Props.C02.coxS_right_end',
     'Pyiga.Props.C02.basisFuns_eq_cox', 'Pyiga.Props.C02.ndu_denominators_pos', 'Pyiga.Props.C02.activeDeriv_row0',
     'Pyiga.Props.C02.ders1_eq_cox_partial', 'Pyiga.Props.C02.ders_high_zero',
+    'Pyiga.Props.C02.ders_row1_eq_cox', 'Pyiga.Props.C02.ders_rows_high_zero',
     'Pyiga.Props.C02.active_values_nonneg', 'Pyiga.Props.C02.active_values_sum_one',
 ]
 MODULES = ['Pyiga.Model.Knots', 'Pyiga.Model.BSpline', 'Pyiga.Proofs.Knots', 'Pyiga.Proofs.BSpline', 'Pyiga.Props.C02']
